@@ -138,7 +138,7 @@ class LeanResult:
 
     @property
     def obligations(self):
-        return len(self.theorems) + len({f["theorem"] for f in self.failed if f.get("is_prop")})
+        return len(self.theorems) + len({f["theorem"] for f in self.failed if f.get("is_prop")}) + getattr(self, "unaudited", 0)
 
     @property
     def discharged(self):
@@ -338,17 +338,25 @@ class Check:
         for f, m in propfiles.items():
             if os.path.exists(f):
                 names += [(m, n) for n in lean_theorems(f)]
-        # only modules whose olean exists can be audited
+        # only modules whose olean exists can be audited; in a module that failed, Lean still elaborated
+        # every other theorem, so only the theorems carrying an error are broken obligations
         auditable = []
-        for (m, n) in names:
+        res.unaudited = 0
+        for m in props:
+            mfile = os.path.join(LEAN, m.replace(".", "/") + ".lean")
             olean = os.path.join(LEAN, ".lake/build/lib/lean", m.replace(".", "/") + ".olean")
-            if os.path.exists(olean) and not any(f["is_prop"] and f["file"].endswith(m.replace(".", "/") + ".lean") for f in res.failed):
-                auditable.append((m, n))
+            mnames = [n for (mm, n) in names if mm == m]
+            errs_here = [f for f in res.failed if os.path.join(VERIF, f["file"]) == mfile]
+            built = os.path.exists(olean) and not errs_here and \
+                os.path.getmtime(olean) >= os.path.getmtime(mfile)
+            if built:
+                auditable += [(m, n) for n in mnames]
+            elif errs_here:
+                res.unaudited += len(mnames) - len({f["theorem"] for f in errs_here})
             else:
-                short = n.split(".")[-1]
-                if short not in failed_thms:
-                    res.failed.append({"file": m, "line": 0, "theorem": short,
-                                       "msg": "module did not build; theorem not re-checked", "is_prop": True})
+                res.failed.append({"file": os.path.relpath(mfile, VERIF), "line": 0, "theorem": m,
+                                   "msg": "module did not build (an imported module failed); %d theorems not re-checked" % len(mnames),
+                                   "is_prop": True})
         if auditable:
             mods = sorted({m for m, _ in auditable})
             src = "".join("import %s\n" % m for m in mods)
